@@ -535,7 +535,7 @@ func (m *Machine) convert(src, dst types.Type, x Value) Value {
 	case sInt && isFloat(dst):
 		xv, ok := x.(uint64)
 		if !ok {
-			m.unsupported("symbolic integer converted to float")
+			return opaqueFloat{} // see model_float.go: usable only as an ignored argument
 		}
 		var f float64
 		if ssigned {
